@@ -11,6 +11,7 @@ from fractions import Fraction
 import z3
 
 from vf import common
+from vf.symx import is_sym
 from vf.symx import (explore, patched_globals, real, SReal, Stats, to_real,
                      model_value, rv)
 
@@ -286,6 +287,125 @@ def unit_helpers(n):
     return out
 
 
+REPLAY_EIG = common.REPLAY_HEADER + '''
+common.use_repo_with_build()
+import numpy as np
+from pysph.base.linalg3 import py_eigen_decompose_eispack
+A = np.array(%(A)r, dtype=float)
+d, V = py_eigen_decompose_eispack(A.copy())
+scale = max(1e-300, np.abs(A).max())
+r1 = np.abs(A.dot(V) - V.dot(np.diag(d))).max()/scale
+r2 = np.abs(V.T.dot(V) - np.eye(3)).max()
+print("A =", A.tolist(), "d =", d.tolist(), "V =", V.tolist(), "residuals", r1, r2)
+bad = None
+if not (r1 < 1e-9 and r2 < 1e-9):
+    bad = "eigen-decomposition: |A V - V diag(d)|/|A| = %%g, |V^T V - I| = %%g" %% (r1, r2)
+sys.exit(common.replay_exit(bad))
+'''
+
+
+def _linalg3_module():
+    import os
+    from vf import cy2py
+    from vf.symx import MATH_TABLE
+    M = cy2py.Module(extra=dict(n=3, fabs=MATH_TABLE["abs"],
+                                sqrt=MATH_TABLE["sqrt"], EPS=2.0 ** -52))
+    M.add_file(os.path.join(common.REPO, "pysph", "base", "linalg3.pyx"))
+    for f in ("MAX", "SQR", "hypot2", "zero_matrix_case", "tred2", "tql2",
+              "eigen_decomposition"):
+        M.load(f)
+    return M
+
+
+def unit_tred2(kind="full", deadline_s=240, timeout_ms=20000):
+    """Householder reduction of linalg3.pyx (lowered): for every symmetric A
+    the accumulated transformation Q is orthogonal and Q^T A Q is the
+    tridiagonal matrix (d, e) it returns.  `kind` restricts the zero
+    pattern so that every branch (scale == 0, h == 0) is reached."""
+    common.use_repo()
+    stats = Stats()
+    out = dict(unit="linalg3.tred2 (%s symmetric 3x3)" % kind, obligations=0,
+               discharged=0, undecided=[])
+    try:
+        M = _linalg3_module()
+    except Exception as e:
+        out.setdefault("harness_errors", []).append(
+            "linalg3.pyx not lowered: %r" % (e,))
+        out["stats"] = stats.as_dict()
+        return out
+    tred2 = M.ns["tred2"]
+    names = ["a00", "a01", "a02", "a11", "a12", "a22"]
+    zero = dict(full=(), plane=("a02", "a12"), diag=("a01", "a02", "a12"),
+                xz=("a01", "a12"), yz=("a01", "a02"), tri=("a02",),
+                a12=("a12",))[kind]
+    sym = dict((k, (0.0 if k in zero else real(k))) for k in names)
+
+    def mat():
+        a = sym
+        return [[a["a00"], a["a01"], a["a02"]],
+                [a["a01"], a["a11"], a["a12"]],
+                [a["a02"], a["a12"], a["a22"]]]
+
+    def run(c):
+        V = mat()
+        d, e = [0.0] * 3, [0.0] * 3
+        tred2(V, d, e)
+        return V, d, e
+
+    ncex = [0]
+    for path in explore(run, stats=stats, max_paths=400, fork_minmax=True,
+                        feas_timeout_ms=3000, deadline_s=deadline_s):
+        if isinstance(path.exc, ZeroDivisionError):
+            out["obligations"] += 1
+            r, model = path.ctx.prove(z3.BoolVal(False), timeout_ms=20000)
+            what = "tred2 divides by zero"
+            if r == "unsat":
+                out["discharged"] += 1
+                continue
+        elif path.exc is not None:
+            out.setdefault("harness_errors", []).append(
+                "tred2 raised %r" % (path.exc,))
+            continue
+        else:
+            Q, d, e = path.value
+            A = mat()
+            pairs = []
+            for i in range(3):
+                for j in range(3):
+                    qtq = sum((Q[k][i] * Q[k][j] for k in range(3)), 0.0)
+                    pairs.append((qtq, 1.0 if i == j else 0.0))
+                    qaq = sum((Q[k][i] * A[k][l] * Q[l][j]
+                               for k in range(3) for l in range(3)), 0.0)
+                    if i == j:
+                        t_ = d[i]
+                    elif abs(i - j) == 1:
+                        t_ = e[max(i, j)]
+                    else:
+                        t_ = 0.0
+                    pairs.append((qaq, t_))
+            out["obligations"] += 1
+            r, model = path.ctx.prove_eqs(pairs, timeout_ms=timeout_ms)
+            what = "Q orthogonal and Q^T A Q = tridiag(d, e)"
+            if r == "unsat":
+                out["discharged"] += 1
+                continue
+        if r == "sat":
+            ncex[0] += 1
+            vals = dict((k, float(model_value(model, v.t)) if is_sym(v)
+                         else 0.0) for k, v in sym.items())
+            Am = [[vals["a00"], vals["a01"], vals["a02"]],
+                  [vals["a01"], vals["a11"], vals["a12"]],
+                  [vals["a02"], vals["a12"], vals["a22"]]]
+            p = common.write_replay(PID, "tred2_%s_%d" % (kind, ncex[0]),
+                                    REPLAY_EIG % dict(A=Am))
+            common.triage(PID, out, "tred2 (%s): %s fails" % (kind, what), p,
+                          dict(unit="tred2"), soft=True)
+        else:
+            out["undecided"].append("tred2 %s: %s" % (kind, what))
+    out["stats"] = stats.as_dict()
+    return out
+
+
 def main():
     t = common.tier()
     common.use_repo()
@@ -308,7 +428,14 @@ def main():
         "(the 'residual bounded by conditioning' clause) is outside the claim",
         "abs/float shadowed in linalg's module globals by symbolic versions",
     ]
-    rep.outside = ["n > %d" % max(s[0] for s in sizes),
+    rep.outside = ["the 3x3 eigen-decomposition beyond its Householder "
+                   "stage: tred2 is checked (Q orthogonal, Q^T A Q = "
+                   "tridiag(d, e)) for symmetric matrices with at least one "
+                   "zero off-diagonal entry (every branch of tred2 is "
+                   "reached); a full matrix does not get through the formal "
+                   "normaliser, and the iterative QL stage tql2 (convergence "
+                   "to machine epsilon) is not encodable over exact reals",
+                   "n > %d" % max(s[0] for s in sizes),
                    "floating-point residual bounds",
                    "linalg3.pyx eigen-decomposition (see c13 unit B when "
                    "registered)"]
@@ -321,6 +448,12 @@ def main():
                           dict(n=n, nb=nb, shard=sh, nshards=nsh,
                                timeout_ms=tmo)))
     units += [("vf.props.c13", "unit_helpers", dict(n=n)) for n in (1, 2, 3)]
+    units += [("vf.props.c13", "unit_tred2",
+               dict(kind=k, deadline_s=240 if t == "quick" else 1200))
+              for k in ("diag", "plane", "xz", "yz", "tri", "a12")]
+    rep.functions.append("pysph/base/linalg3.pyx tred2 (lowered) sha=%s" %
+                         common.sha_of(common.REPO +
+                                       "/pysph/base/linalg3.pyx"))
     common.run_units(rep, units)
     return rep.finish()
 
